@@ -371,6 +371,45 @@ def _none_side_only(P, C, chk_block, chk_t, site_block):
     return site_block not in P.reach(C, some_side)
 
 
+CHECKER_OK_CALLS = ("as_rule", "eq", "ne", "is_err", "is_ok", "parse", "from_str", "as_str", "call", "call_mut", "call_once", "deref", "clone",
+                    "into_inner", "flatten", "find", "any", "next", "is_some", "is_none", "as_ref", "borrow")
+
+
+def checker_inexact(P, chk, site_fn):
+    """The checker must say Some exactly when the conversion at the guarded site fails: its decisions (every switch in the
+    checker and its closures) depend only on the pair's rule, on the success of the *same* std conversion the site unwraps and
+    on its own closure's answer.  A further condition (a length shortcut, a sign test, a digit count) can only make it say None
+    for an input that still panics — it is reported, since no shape argument shows such a shortcut exact."""
+    from origins import backward_slice
+    # the conversion whose failure panics at the site: parse::<T> with the same T
+    site_convs = {t["f"]["name"] for bi, t in P.calls(site_fn) if t.get("f") and t["f"]["id"].rsplit("::", 1)[1] in ("parse", "from_str")}
+    bodies = [chk] + [g for g in P.fns.values() if g.kind == "closure" and (g.parent == chk.id or getattr(g, "root", None) == chk.id)]
+    convs = {t["f"]["name"] for g in bodies for bi, t in P.calls(g) if t.get("f") and t["f"]["id"].rsplit("::", 1)[1] in ("parse", "from_str")}
+    if not convs or not convs <= site_convs:
+        return "the checker %s does not try the conversion the guarded site unwraps (%s vs %s)" % (chk.key, sorted(convs), sorted(site_convs))
+    for g in bodies:
+        for bi, b in enumerate(g.blocks):
+            t = b["t"]
+            if t["k"] != "switch":
+                continue
+            ol = op_local(t["o"])
+            if not ol:
+                continue
+            locs, calls = backward_slice(g, ol[0])
+            for c in calls:
+                f = c.get("f")
+                last = f["id"].rsplit("::", 1)[1] if f else "?"
+                if last not in CHECKER_OK_CALLS:
+                    return ("the checker %s decides on `%s` (line %s) besides the rule and the trial conversion: a shortcut condition can let an input through "
+                            "that still panics at the guarded conversion" % (chk.key, f["name"] if f else "an indirect call", c.get("line")))
+            for b2 in g.blocks:
+                for st in b2["s"]:
+                    if st[0] == "a" and st[1][0] in locs and st[2]["k"] == "bin" and st[2]["op"].replace("WithOverflow", "") not in ("Eq", "Ne", "BitAnd", "BitOr"):
+                        return ("the checker %s decides on a `%s` comparison (line %s) besides the rule and the trial conversion: a shortcut condition can let an "
+                                "input through that still panics at the guarded conversion" % (chk.key, st[2]["op"], st[3] if len(st) > 3 else "?"))
+    return None
+
+
 def precheck_covered(P, fn, checker, converters):
     """D-PRECHECK:<checker>:converters=<fns>.  The conversion in `fn` panics on inputs the checker function detects.  `fn` and the
     listed converter functions hand a pest pair on to each other; every *other* function that calls one of them (the frontier)
@@ -389,6 +428,9 @@ def precheck_covered(P, fn, checker, converters):
     if len(chk) != 1:
         return False, "checker function %s is gone" % checker
     chk_id = chk[0].id
+    inexact = checker_inexact(P, chk[0], fn)
+    if inexact:
+        return False, inexact
     gph = P.callgraph()
     n_sites = [0]
 
